@@ -1,5 +1,5 @@
 CONSTANTS Budget = 2 MaxItems = 1 Sim = FALSE Headers = "plain"
-  Masked = {"clause_guard", "unary", "pas_var"}
+  Masked = {"clause_guard", "pas_var"}
 SPECIFICATION Spec
 INVARIANTS PendingInvisible TargetsAreBinders Balanced ScopeDeclarative RenameComplete EmitCase
 CHECK_DEADLOCK FALSE
